@@ -622,7 +622,7 @@ def check(ctx):
     ctx.floor("R13.7", 5)
     ctx.floor("R13.9", 6)
     ctx.floor("R13.10", 5)
-    ctx.floor("R13.11", 2)
+    ctx.floor("R13.11", 3)
     ctx.floor("R13.1", 11)
     ctx.floor("R13.2", 11)
     ctx.floor("R13.8", 11)
